@@ -40,10 +40,10 @@ macro "ledger_norm" : tactic =>
 theorem deductFees_moves {L L' : Ledger} {a : Addr} {fee : Nat} (hi : InvSupply L) (h : deductFees L a fee = .ok L') : Moves L L' := by
   unfold deductFees at h
   obtain ⟨L1, h1, h2⟩ := bind_ok h
-  obtain ⟨acc, rfl, e1⟩ := accountSub_ok h1
+  obtain ⟨acc, vs, rfl, e1⟩ := accountSub_ok h1
   cases h2
-  have hb := poolGet_le { L with accounts := acc } { L with accounts := acc }.cfg.chainId
-  obtain ⟨p, e2, e3⟩ := poolAdd_noWrap { L with accounts := acc } { L with accounts := acc }.cfg.chainId fee (by
+  have hb := poolGet_le { L with accounts := acc, vesting := vs } { L with accounts := acc, vesting := vs }.cfg.chainId
+  obtain ⟨p, e2, e3⟩ := poolAdd_noWrap { L with accounts := acc, vesting := vs } { L with accounts := acc, vesting := vs }.cfg.chainId fee (by
     ledger_norm; omega)
   rw [e2] at e3 ⊢
   ledger_norm; omega
@@ -51,8 +51,36 @@ theorem deductFees_moves {L L' : Ledger} {a : Addr} {fee : Nat} (hi : InvSupply 
 theorem handleSend_moves {L L' : Ledger} {s d : Addr} {x : Nat} (h : handleSend L s d x = .ok L') : Moves L L' := by
   unfold handleSend at h
   obtain ⟨L1, h1, h2⟩ := bind_ok h
-  obtain ⟨acc, rfl, e1⟩ := accountSub_ok h1
-  obtain ⟨acc2, rfl, e2⟩ := accountAdd_ok h2
+  obtain ⟨acc, vs, rfl, e1⟩ := accountSub_ok h1
+  obtain ⟨acc2, vs, rfl, e2⟩ := accountAdd_ok h2
+  ledger_norm; omega
+
+theorem accountAddWithVesting_ok {L L' : Ledger} {dst : Addr} {x st cl en : Nat}
+    (h : accountAddWithVesting L dst x st cl en = .ok L') :
+    ∃ acc vs, L' = { L with accounts := acc, vesting := vs } ∧ accSum L' = accSum L + x := by
+  unfold accountAddWithVesting at h
+  split at h
+  · exact absurd h (by intro h; cases h)
+  · split at h
+    · exact absurd h (by intro h; cases h)
+    · split at h
+      · obtain rfl := Except.ok.inj h
+        refine ⟨_, _, rfl, ?_⟩
+        have := accSum_setAccount L dst (accGet L dst + x) (some ⟨x, st, cl, en⟩); omega
+      · obtain rfl := Except.ok.inj h
+        refine ⟨_, _, rfl, ?_⟩
+        have := accSum_setAccount L dst (accGet L dst + x) (vestTopUp (vestGet? L dst) x st cl en)
+        omega
+
+/-- a vesting send only moves tokens: the sender is debited (spendable part only), the recipient credited, and
+the tranche bookkeeping does not touch any balance -/
+theorem handleSendVesting_moves {L L' : Ledger} {s d : Addr} {x st cl en : Nat} (h : handleSendVesting L s d x st cl en = .ok L') :
+    Moves L L' := by
+  unfold handleSendVesting at h
+  obtain ⟨_, _, h⟩ := bind_ok h
+  obtain ⟨L1, h1, h2⟩ := bind_ok h
+  obtain ⟨acc, vs, rfl, e1⟩ := accountSub_ok h1
+  obtain ⟨acc2, vs2, rfl, e2⟩ := accountAddWithVesting_ok h2
   ledger_norm; omega
 
 theorem handleSubsidy_moves {L L' : Ledger} {a : Addr} {c x : Nat} (hi : InvSupply L) (h : handleSubsidy L a c x = .ok L') : Moves L L' := by
@@ -60,10 +88,10 @@ theorem handleSubsidy_moves {L L' : Ledger} {a : Addr} {c x : Nat} (hi : InvSupp
   split at h
   · cases h
   obtain ⟨L1, h1, h2⟩ := bind_ok h
-  obtain ⟨acc, rfl, e1⟩ := accountSub_ok h1
+  obtain ⟨acc, vs, rfl, e1⟩ := accountSub_ok h1
   cases h2
-  have hb := poolGet_le { L with accounts := acc } c
-  obtain ⟨p, e2, e3⟩ := poolAdd_noWrap { L with accounts := acc } c x (by ledger_norm; omega)
+  have hb := poolGet_le { L with accounts := acc, vesting := vs } c
+  obtain ⟨p, e2, e3⟩ := poolAdd_noWrap { L with accounts := acc, vesting := vs } c x (by ledger_norm; omega)
   rw [e2] at e3 ⊢
   ledger_norm; omega
 
@@ -99,7 +127,7 @@ theorem mintToAccount_mints {L L' : Ledger} {a : Addr} {x : Nat} (hx : L.supply.
   split at h
   · next h0 => cases h; subst h0; exact Moves.refl L
   · rw [addToTotal_noWrap L x hx] at h
-    obtain ⟨acc, rfl, e⟩ := accountAdd_ok h
+    obtain ⟨acc, vs, rfl, e⟩ := accountAdd_ok h
     ledger_norm; omega
 
 /-- `HandleMessageDAOTransfer`: mints `amount` when `mint` is set (hypothesis: no overflow), otherwise only moves -/
@@ -113,20 +141,20 @@ theorem handleDaoTransfer_step {L L' : Ledger} {a : Addr} {x s e : Nat} {mint : 
   | false =>
     simp only [Bool.false_eq_true, if_false] at h2 ⊢
     obtain ⟨p, rfl, e1⟩ := poolSub_ok h2
-    obtain ⟨acc, rfl, e2⟩ := accountAdd_ok h3
+    obtain ⟨acc, vs, rfl, e2⟩ := accountAdd_ok h3
     ledger_norm; omega
   | true =>
     simp only [if_true] at h2 ⊢
     have hm := mintToPool_mints (id := Canopy.Gen.LedgerFacts.daoPoolId) hi (hx rfl)
     obtain ⟨p, rfl, e1⟩ := poolSub_ok h2
-    obtain ⟨acc, rfl, e2⟩ := accountAdd_ok h3
+    obtain ⟨acc, vs, rfl, e2⟩ := accountAdd_ok h3
     ledger_norm; omega
 
 /-- `maybeFaucetTopUpForSendTx`: mints the shortfall when the sender is the configured faucet -/
 def faucetMint (L : Ledger) (sender : Addr) (required : Nat) : Nat :=
   match L.cfg.faucet with
   | none => 0
-  | some f => if sender ≠ f then 0 else if accGet L sender ≥ required then 0 else required - accGet L sender
+  | some f => if sender ≠ f then 0 else if accSpendable L sender ≥ required then 0 else required - accSpendable L sender
 
 theorem faucetTopUp_mints {L L' : Ledger} {a : Addr} {r : Nat} (hx : L.supply.total + faucetMint L a r < U64)
     (h : faucetTopUp L a r = .ok L') : Step (faucetMint L a r) 0 L L' := by
@@ -139,7 +167,7 @@ theorem faucetTopUp_mints {L L' : Ledger} {a : Addr} {r : Nat} (hx : L.supply.to
     by_cases hne : a ≠ f
     · rw [if_pos hne] at h ⊢; cases h; exact Moves.refl L
     · rw [if_neg hne] at h hx ⊢
-      by_cases hge : accGet L a ≥ r
+      by_cases hge : accSpendable L a ≥ r
       · rw [if_pos hge] at h ⊢; cases h; exact Moves.refl L
       · rw [if_neg hge] at h hx ⊢
         exact mintToAccount_mints hx h
@@ -328,7 +356,7 @@ theorem handleStake_inv {L L' : Ledger} {s a o : Addr} {x : Nat} {cs : List Nat}
 theorem handleStake_moves {L L' : Ledger} {s a o : Addr} {x : Nat} {cs : List Nat} {d c : Bool}
     (h : handleStake L s a x cs d c o = .ok L') : Moves L L' := by
   obtain ⟨hnone, _, L1, L2, L3, h1, h2, h3, rfl⟩ := handleStake_inv h
-  obtain ⟨acc, rfl, e1⟩ := accountSub_ok h1
+  obtain ⟨acc, vs, rfl, e1⟩ := accountSub_ok h1
   have s2 := sameBal_addToStaked h2
   have s3 : SameBal L2 L3 := by
     cases d with
@@ -338,7 +366,7 @@ theorem handleStake_moves {L L' : Ledger} {s a o : Addr} {x : Nat} {cs : List Na
   have s := s2.trans s3
   have hb := bal_valPut L3 a { stake := x, committees := cs, delegate := d, compound := c, output := o }
   rw [s.valGet] at hb
-  have hn : valGet? { L with accounts := acc } a = none := hnone
+  have hn : valGet? { L with accounts := acc, vesting := vs } a = none := hnone
   rw [hn] at hb
   have := s.bal_eq; have := s.total
   ledger_norm; simp only [ow_none] at hb; omega
@@ -360,9 +388,9 @@ theorem handleEditStake_inv {L L' : Ledger} {s a o : Addr} {x : Nat} {cs : List 
 theorem handleEditStake_moves {L L' : Ledger} {s a o : Addr} {x : Nat} {cs : List Nat} {c : Bool} (hi : InvSupply L)
     (h : handleEditStake L s a x cs c o = .ok L') : Moves L L' := by
   obtain ⟨val, L1, hv, _, h1, h2⟩ := handleEditStake_inv h
-  obtain ⟨acc, rfl, e1⟩ := accountSub_ok h1
+  obtain ⟨acc, vs, rfl, e1⟩ := accountSub_ok h1
   have hst := stake_le L a val hv
-  have hv1 : valGet? { L with accounts := acc } a = some val := hv
+  have hv1 : valGet? { L with accounts := acc, vesting := vs } a = some val := hv
   obtain ⟨t, b⟩ := updateValidatorStake_bal (val := { val with output := o, compound := c }) hv1 rfl (by
     ledger_norm; show val.stake + _ < U64; omega) h2
   ledger_norm; omega
